@@ -2,8 +2,11 @@
 from __future__ import annotations
 
 import ast
+import functools
+import itertools
 
 from .. import astq, lifecycle
+from ..model import ClassRef
 from ..core import AnalysisError
 from ..lifecycle import TAB
 
@@ -121,85 +124,81 @@ def run(ctx, rep):
     R5 = rep.rule('C17.R5', 'argument/logic setters and build_trunk refuse when STARTED before any mutation; rule '
                             'collections: every mutator is @locking (or delegates to one), __setattr__ is locking, '
                             'RulesRoot.lock is registered on the first branch')
+    # setters folded: once STARTED they raise before touching anything; before that they install the value
+    from ..minieval import Interp as _I, Obj as _O, Raises as _Rs
+
+    Flag = lifecycle.flag_enum(m)
+    FlagM = lambda names: functools.reduce(lambda a_, b_: a_ | b_, (getattr(Flag, n_) for n_ in names), Flag(0))
     for name in ('argument', 'logic'):
         fn = astq.setter(m, TAB, f'Tableau.{name}')
-        st = first_stmt(fn)
-        ok = isinstance(st, ast.If) and astq.u(st.test) == 'self.flag.STARTED in self.flag' and isinstance(st.body[-1], ast.Raise)
-        rep.instance(R5, ok=ok, nontrivial=f'{name}.setter')
         rep.consult(m.loc(TAB, fn) + f' Tableau.{name}.setter')
-        if not ok:
-            rep.finding(R5, f'C17.R5/{name}.setter/no-started-guard', m.loc(TAB, fn), f'Tableau.{name}.setter',
-                        'does not refuse, as its first action, when the tableau has started')
+        for started in (True, False):
+            log = []
+            rules = _O('rules', clear=lambda: log.append('rules.clear'))
+            rules.groups = _O('groups', create=lambda *a: (log.append(('create', a)), _O('group', extend=lambda cls_: log.append(('extend', tuple(cls_)))))[1])
+            tab = _O('tableau', __srcclass__=(m, ClassRef(TAB, 'Tableau')), flag=FlagM({'STARTED'} if started else ()), rules=rules,
+                     opts={'auto_build_trunk': True}, build_trunk=lambda: log.append('build_trunk'))
+            LOGIC = _O('logic', Rules=_O('Rules', closure=('C1',), groups=(('G1',), ('G2', 'G3'))))
+            if name == 'argument':
+                tab.logic = LOGIC
+            else:
+                tab.argument = 'ARG'
+                tab.logic = None
+            it = _I(dict(Emsg=_O('Emsg', IllegalState=lambda *a: 'IllegalStateError'), Argument=lambda v: ('Argument', v), registry=lambda v: LOGIC),
+                    where=f'Tableau.{name}.setter')
+            if name == 'logic':
+                # the setter reads self.logic back after storing _logic
+                tab.__class__ = type('TabM', (_O,), {'logic': property(lambda s_: getattr(s_, '_logic', None))})
+                del tab.__dict__['logic']
+            r = it.safe(fn, [tab, 'VALUE'])
+            if started:
+                ok = isinstance(r, _Rs) and 'IllegalState' in r.text and log == [] and not hasattr(tab, '_argument') and not hasattr(tab, '_logic')
+                want = 'IllegalStateError before any change'
+            elif name == 'argument':
+                ok = not isinstance(r, _Rs) and getattr(tab, '_argument', None) == ('Argument', 'VALUE') and log == ['build_trunk']
+                want = 'the argument stored and the trunk built (logic present, auto_build_trunk)'
+            else:
+                ok = not isinstance(r, _Rs) and getattr(tab, '_logic', None) is LOGIC and log[:1] == ['rules.clear'] and \
+                    [x for x in log if isinstance(x, tuple) and x[0] == 'extend'] == [('extend', ('C1',)), ('extend', ('G1',)), ('extend', ('G2', 'G3'))] and log[-1] == 'build_trunk'
+                want = 'rules cleared first, closure and group rules installed through the collection API, then the trunk built'
+            rep.instance(R5, ok=ok, nontrivial=(f'{name}.setter', started))
+            if not ok:
+                rep.finding(R5, f'C17.R5/{name}.setter/{"started" if started else "not-started"}', m.loc(TAB, fn), f'Tableau.{name}.setter',
+                            f'STARTED={started}: result {r!r}, effects {log}; expected {want}')
     bt = m.func(TAB, 'Tableau.build_trunk')
     pmb = astq.parent_map(bt)
     effects = [c for c in astq.calls(bt) if astq.call_name(c) in ('self.emit', 'self.branch', 'self.logic.System.build_trunk')]
     astq.need(len(effects) >= 3, 'Tableau.build_trunk: effects not recognised')
-    for c in effects:
-        neg = guard_texts(astq.guards_of(bt, astq.stmt_of(pmb, c), pmb), False)
-        needg = {'self.flag.TRUNK_BUILT in self.flag', 'self.flag.STARTED in self.flag', 'self.argument is None', 'self.logic is None'}
-        ok = needg <= neg
-        rep.instance(R5, ok=ok, nontrivial=f'build_trunk:{astq.call_name(c)}:{c.lineno}')
+    # build_trunk folded: refuses when the trunk is built / the tableau has started / argument or logic is missing -- before any effect
+    for built, started, has_arg, has_logic in itertools.product((False, True), repeat=4):
+        log = []
+        flags = FlagM((['TRUNK_BUILT'] if built else []) + (['STARTED'] if started else []))
+        br = _O('branch')
+        system = _O('System', build_trunk=lambda b_, a_: log.append(('System.build_trunk', b_, a_)))
+        tab = _O('tableau', __srcclass__=(m, ClassRef(TAB, 'Tableau')), flag=flags, argument='ARG' if has_arg else None,
+                 logic=_O('logic', System=system) if has_logic else None, emit=lambda ev, *a: log.append(('emit', ev)),
+                 branch=lambda *a: (log.append('branch'), br)[1], timers=_O('timers', trunk=type('CM', (), {'__enter__': lambda s_: None, '__exit__': lambda s_, *a: None})()))
+        it = _I(dict(Emsg=_O('Emsg', IllegalState=lambda *a: 'IllegalStateError', MissingValue=lambda *a: 'IllegalStateError'),
+                     Tableau=_O('Tableau', Events=_O('Events', BEFORE_TRUNK_BUILD='BEFORE_TRUNK_BUILD', AFTER_TRUNK_BUILD='AFTER_TRUNK_BUILD'))), where='Tableau.build_trunk')
+        r = it.safe(bt, [tab])
+        legal = not built and not started and has_arg and has_logic
+        if legal:
+            ok = not isinstance(r, _Rs) and ('System.build_trunk', br, 'ARG') in log and Flag.TRUNK_BUILT in tab.flag and Flag.STARTED in tab.flag
+        else:
+            ok = isinstance(r, _Rs) and log == [] and tab.flag == flags
+        case = f'TRUNK_BUILT={built} STARTED={started} argument={"set" if has_arg else "None"} logic={"set" if has_logic else "None"}'
+        rep.instance(R5, ok=ok, nontrivial=('build_trunk', case))
         if not ok:
-            rep.finding(R5, f'C17.R5/build_trunk/{astq.call_name(c)}', m.loc(TAB, c), 'Tableau.build_trunk',
-                        f'`{astq.u(c)[:50]}` is reachable without the guards {sorted(needg - neg)}')
-    # locking discipline
-    mutators = {
-        'RuleGroup': ['append', 'clear', 'lock'], 'RuleGroups': ['create', 'append', 'clear', 'lock'], 'RulesRoot': ['lock'],
-    }
-    delegating = {'RuleGroup': {'extend': 'self.append'}, 'RuleGroups': {'extend': 'self.append'},
-                  'RulesRoot': {'append': 'self.groups.create', 'extend': 'self.groups.create', 'clear': 'self.groups.clear'}}
-    for cls, names in mutators.items():
-        for n in names:
-            fn = m.func(TAB, f'{cls}.{n}')
-            ok = 'locking' in astq.decorators(fn)
-            rep.instance(R5, ok=ok, nontrivial=f'{cls}.{n}')
-            if not ok:
-                rep.finding(R5, f'C17.R5/{cls}.{n}/not-locking', m.loc(TAB, fn), f'{cls}.{n}', 'mutator is not decorated @locking')
-    for cls, mp in delegating.items():
-        for n, callee in mp.items():
-            fn = m.func(TAB, f'{cls}.{n}')
-            b = astq.stmts(fn)
-            first_call = next((astq.call_name(c) for st in b[:1] for c in sorted(astq.calls(st), key=lambda c: (c.lineno, c.col_offset))), None)
-            txt = astq.u(fn)
-            ok = callee in txt and ('locking' in astq.decorators(fn) or all(
-                not isinstance(t, (ast.Attribute, ast.Subscript)) for t, _ in astq.stores(fn)))
-            # first effect must be the delegation (a raising callee leaves everything untouched)
-            if ok and n == 'clear' and cls == 'RulesRoot':
-                ok = astq.u(b[0]).startswith('self.groups.clear()')
-            rep.instance(R5, ok=ok, nontrivial=f'{cls}.{n}')
-            if not ok:
-                rep.finding(R5, f'C17.R5/{cls}.{n}/delegation', m.loc(TAB, fn), f'{cls}.{n}',
-                            f'no longer only delegates to the locking `{callee}` first')
-    for cls in ('RuleGroup', 'RuleGroups', 'RulesRoot'):
-        raw, _ = m.getraw(ClassRefTAB(cls), '__setattr__')
-        ok = raw is not None and astq.u(raw[1]) == 'locking(object.__setattr__)'
-        rep.instance(R5, ok=ok, nontrivial=f'{cls}.__setattr__')
+            rep.finding(R5, f'C17.R5/build_trunk/{case}', m.loc(TAB, bt), 'Tableau.build_trunk',
+                        f'{case}: result {r!r}, effects {log}, flags {tab.flag!r}; expected ' + ('the trunk built once' if legal else 'a refusal before any effect'))
+    # rule collections: the locking state machine folded
+    from .. import rulesfold
+    res, cons = rulesfold.fold_rule_collections(m)
+    rep.consult(*cons)
+    for ok, case, detail in res:
+        rep.instance(R5, ok=ok, nontrivial=('rules', case))
         if not ok:
-            rep.finding(R5, f'C17.R5/{cls}.__setattr__', m.relfile(TAB), f'{cls}.__setattr__', 'is not locking(object.__setattr__)')
-    init = m.func(TAB, 'RulesRoot.__init__')
-    ok = 'tableau.once(Tableau.Events.AFTER_BRANCH_ADD, self.lock)' in astq.u(init)
-    rep.instance(R5, ok=ok, nontrivial='RulesRoot.lock-registered')
-    if not ok:
-        rep.finding(R5, 'C17.R5/RulesRoot.__init__/lock-not-registered', m.loc(TAB, init), 'RulesRoot.__init__',
-                    'RulesRoot.lock is not registered on the first AFTER_BRANCH_ADD')
-    lk = m.func(TAB, 'locking')
-    txt = astq.u(lk)
-    ok = 'if self.root.locked' in txt and 'raise' in txt and 'return method(self, *args, **kw)' in txt
-    rep.instance(R5, ok=ok, nontrivial='locking-decorator')
-    if not ok:
-        rep.finding(R5, 'C17.R5/locking', m.loc(TAB, lk), 'locking', 'decorator no longer raises when self.root.locked')
-    rl = m.func(TAB, 'RulesRoot.lock')
-    ok = 'self.locked = True' in astq.u(rl) and 'self.groups.lock()' in astq.u(rl)
-    rep.instance(R5, ok=ok, nontrivial='RulesRoot.lock')
-    if not ok:
-        rep.finding(R5, 'C17.R5/RulesRoot.lock', m.loc(TAB, rl), 'RulesRoot.lock', 'no longer locks the groups and sets locked = True')
-    # the logic setter installs rules only through the locking collection API
-    ls = astq.setter(m, TAB, 'Tableau.logic')
-    ok = 'self.rules.clear()' in astq.u(ls) and "self.rules.groups.create('closure').extend(Rules.closure)" in astq.u(ls)
-    rep.instance(R5, ok=ok, nontrivial='logic.setter-installs-rules')
-    if not ok:
-        rep.finding(R5, 'C17.R5/logic.setter/rules', m.loc(TAB, ls), 'Tableau.logic.setter',
-                    'does not (re)install the closure and group rules through the locking collection API')
+            rep.finding(R5, f'C17.R5/rules/{case}', cons[0].split(' ')[0] if cons else m.relfile(TAB), 'RulesRoot / RuleGroups / RuleGroup', f'{case}: {detail}')
 
 
 def ClassRefTAB(name):
